@@ -6,6 +6,7 @@
      Tick           <-h.ticker.Next()      (fetch-then-execute on fetchFirst, else execute-then-fetch)
      Reorg(kind)    <-h.reorg              (kind "prev"/"cur" = Previous / Current dependent root changed)
      IndicesChange  <-h.indicesChange
+     InitialDuties  HandleInitialDuties, once, before the loop (proposer, sync committee; constant InitDuties)
      Assign         the beacon node fixes the assignment of the next epoch / period (environment)
 
    A *key* is an epoch (att, prop) or a sync-committee period (sync).  The duty store is a set of
@@ -183,31 +184,31 @@ AttTick(s, lag, okC, okN) ==
         hB0 == IF idxChanged /\ Weaken # "noResetOnIndices" THEN [H0 EXCEPT !.st = ResetK(@, e)] ELSE H0
         hB == ProcFetch(hB0, e, s, okC, okN)
         h == IF fetchFirst THEN hA ELSE hB
-        disp == IF fetchFirst THEN DutiesAt(hA.st, e, s) ELSE DutiesAt(store, e, s)
+        cand == IF fetchFirst THEN DutiesAt(hA.st, e, s) ELSE DutiesAt(store, e, s)   \* processExecution's input
         lfExec == IF fetchFirst THEN hA.lf ELSE lastFetched
         fn2 == IF Off(s) = SPE \div 2 - 2 THEN TRUE ELSE h.fn
         st2 == IF Off(s) = SPE - 1 /\ Weaken # "noEpochEndReset" THEN ResetK(h.st, e) ELSE h.st
-    IN Commit(s, lag, okC, okN, h, disp, lfExec, FALSE, FALSE, fn2, st2, h.mv)
+    IN Commit(s, lag, okC, okN, h, cand, lfExec, FALSE, FALSE, fn2, st2, h.mv)
 
 PropTick(s, lag, okC, okN) ==
     LET e == EpochOf(s)
         hF == FetchKey(H0, e, okC)
         h == IF fetchFirst \/ idxChanged THEN hF ELSE H0
-        disp == IF fetchFirst THEN DutiesAt(hF.st, e, s) ELSE DutiesAt(store, e, s)
+        cand == IF fetchFirst THEN DutiesAt(hF.st, e, s) ELSE DutiesAt(store, e, s)
         lfExec == IF fetchFirst THEN hF.lf ELSE lastFetched
         last == Off(s) = SPE - 1
-        st2 == IF last THEN ResetK(h.st, e - 1) ELSE h.st
-    IN Commit(s, lag, okC, okN, h, disp, lfExec, last, FALSE, FALSE, st2, h.mv)
+        st2 == IF last THEN ResetK(h.st, e - 1) ELSE h.st       \* ResetEpoch(currentEpoch - 1); fetchFirst = true
+    IN Commit(s, lag, okC, okN, h, cand, lfExec, last, FALSE, FALSE, st2, h.mv)
 
 SyncTick(s, lag, okC, okN) ==
     LET p == KeyOf(s)
         hF == ProcFetch(H0, p, s, okC, okN)
-        disp == IF fetchFirst THEN DutiesAt(hF.st, p, s) ELSE DutiesAt(store, p, s)
+        cand == IF fetchFirst THEN DutiesAt(hF.st, p, s) ELSE DutiesAt(store, p, s)
         lfExec == IF fetchFirst THEN hF.lf ELSE lastFetched
         fn2 == IF Off(s) = SPE \div 2 - 2 /\ EpochOf(s) % EPP = EPP - 2 THEN TRUE ELSE hF.fn
         st2 == IF s = LastSlotOfPeriod(p) THEN ResetK(hF.st, p - 1) ELSE hF.st
     IN /\ KeyOf(s + lag) = p          \* the fetch reads EstimatedCurrentEpoch: keep the lag inside the period
-       /\ Commit(s, lag, okC, okN, hF, disp, lfExec, FALSE, idxChanged, fn2, st2, hF.mv)
+       /\ Commit(s, lag, okC, okN, hF, cand, lfExec, FALSE, idxChanged, fn2, st2, hF.mv)
 
 (* fetch outcomes are chosen only for fetches that can happen in this tick (Commit pins the unused ones to TRUE) *)
 OkDomC == IF (Role = "prop" /\ (fetchFirst \/ idxChanged)) \/ (Role # "prop" /\ fetchCur) THEN BOOLEAN ELSE {TRUE}
